@@ -1,10 +1,12 @@
-from props_common import GEN_LAYOUT_TRUST, TRUSTED_COMMON, VIEW_RULE, views_harness
+from props_common import GEN_ITERS_TRUST, GEN_LAYOUT_TRUST, TRUSTED_COMMON, VIEW_RULE, views_harness
 
 PROP = {
-    "generators": [{"script": "gen_layout.py"}],
-    "lean_targets": ["MultiProofs.C19", "MultiProofs.C19b", "MultiProofs.GenTie"],
+    "generators": [{"script": "gen_layout.py"}, {"script": "gen_iters.py"}],
+    "lean_targets": ["MultiProofs.C19", "MultiProofs.C19b", "MultiProofs.GenTie", "MultiProofs.GenTieIter"],
     "lean_module": "MultiProofs.C19b",
     "theorems": [
+        "Multi.GenTieIter.elements_iterator_is_the_code",
+        "Multi.GenTieIter.counter_functions_are_the_code",
         "Multi.GenTie.range_functions_are_the_code",
         "Multi.GenTie.layout_functions_are_the_code",
         "Multi.GenTie.view_functions_are_the_code",
@@ -22,7 +24,7 @@ PROP = {
         "Multi.C02.elemit_laws",
     ],
     "harnesses": [views_harness(["rebased"], 4800, 320000, modes_thorough=["rebased", "exhaustive-rebased"])],
-    "trusted_base": TRUSTED_COMMON + GEN_LAYOUT_TRUST,
+    "trusted_base": TRUSTED_COMMON + GEN_LAYOUT_TRUST + GEN_ITERS_TRUST,
     "assumptions": ["index bases drawn from -3..3 per dimension in the correspondence run; the theorems hold for every integer base",
                     "copying, assignment, equality and reextent of re-based arrays reduce to elements() of re-based views (C05/C06/C07 checks run re-based operands as well)",
                     ],
